@@ -344,10 +344,11 @@ fn op_token(op: &Op) -> String {
 fn gen_history(rng: &mut Rng, thorough: bool) -> Vec<Op> {
     let mut ops = vec![];
     let mut e = rng.range(1, 4);
-    // one history in ten works with huge stakes: totals at and beyond 2^64
-    let huge = rng.chance(1, 10);
+    // one history in eight works with huge stakes: totals at and beyond 2^64
+    let huge = rng.chance(1, 8);
     let stake = move |rng: &mut Rng| -> u64 {
-        if huge && rng.chance(1, 2) { return 1u64 << 62; }
+        // 2^63-1 is the largest stake the sqlite column takes: three of them pass 2^64
+        if huge && rng.chance(3, 5) { return i64::MAX as u64; }
         match rng.below(12) { 0 => 0, 1 => 1u64 << 62, 2 | 3 => 5, _ => rng.range(1, 40) }
     };
     let key_of = |rng: &mut Rng, p: usize| -> usize {
